@@ -7,6 +7,15 @@ ids = [p["id"] for p in props]
 
 # id -> (category, technique, level text, level note, design ref)
 CHECKS = {
+ "C04": ("exploration", "property-based testing (Hypothesis): metamorphic differential, default AST pipeline vs disabled optional passes / inline marks",
+         "No output difference between the default pipeline and runs with optional AST passes disabled (singly and in random subsets) or with inline/no_inline marks the semantic checker accepts, over thousands of generated programs on which the pass demonstrably fires; a search, not a proof.",
+         "Interpreter back end; inline legality as read from SemanticChecker (marks souffle rejects with a 'Cannot inline' diagnostic are discarded and counted); two known findings (F18, F20) are excluded by construction and re-probed.", "4/C04"),
+ "C05": ("exploration", "property-based testing (Hypothesis): metamorphic differential, magic-set transformed vs untransformed program",
+         "No output difference between the untransformed program and --magic-transform=* / random relation subsets / exclude lists / magic,no_magic qualifiers, over thousands of generated programs (negation, aggregates, records, recursion, constant queries) in which a magic-guarded clause with a bound adornment position exists; a search, not a proof.",
+         "Interpreter back end; termination of the transformed program is assumed for the finite generated programs (timeouts are inconclusive).", "4/C05"),
+ "C06": ("exploration", "property-based testing (Hypothesis): metamorphic differential, full RAM pipeline vs each RAM transformer skipped through a guarded hook",
+         "No output difference between the full RAM pipeline and runs with each of the 12 RAM transformers skipped (singly and in random subsets, -j1 and -j4) over thousands of generated programs on which the skipped pass demonstrably fires; a search, not a proof.",
+         "Relies on the SOUFFLE_VERIF_SKIP_RAM hook only preventing the named transformer from running; interpreter back end.", "4/C06"),
  "C01": ("exploration", "property-based testing (Hypothesis): generated programs vs naive reference evaluator",
          "No counterexample among thousands of generated typed, stratified programs whose every output relation is compared (both directions, duplicates) with an independent naive stratified evaluator; a search, not a proof.",
          "Trusts dlref (the reference evaluator written from the documentation) and the by-construction well-formedness of dlgen programs; cases outside the defined value domain are discarded and counted.", "4/C01"),
